@@ -377,7 +377,8 @@ mutual
 
   def parseReturnStatement (cfg : PCfg) (st : PS) : Option (Stmt × PS) :=
     let tok := st.cur
-    if st.peek.type != .semicolon && st.peek.type != .eof && st.peek.type != .rbrace then
+    -- restricted production: a line break after `return` ends the statement
+    if st.peek.type != .semicolon && st.peek.type != .eof && st.peek.type != .rbrace && !st.peek.nl then
       (parseExpressionI cfg cfg.exprI LOWEST st.next) >>= fun (v, st) =>
         let (ok, st) := expectSemiASI cfg st
         if !ok then some (.none, st) else some (.ret tok v, st)
@@ -484,7 +485,10 @@ mutual
   /-- `ParseRemainingExpressionWithPrecedence` -/
   def parseRemaining (cfg : PCfg) (left : Expr) (prec : Nat) (st : PS) : Option (Expr × PS) :=
     if st.peek.type != .semicolon && prec < peekPrecedence cfg st then
-      if cfg.smart && st.peek.nl && (st.peek.type == .lparen || st.peek.type == .lbracket) then
+      -- restricted production: no line break before a postfix `++` / `--`
+      if st.peek.nl && (st.peek.type == .increment || st.peek.type == .decrement) then
+        some (left, st)
+      else if cfg.smart && st.peek.nl && (st.peek.type == .lparen || st.peek.type == .lbracket) then
         some (left, st)
       else
         (parseInfixExpression cfg left st) >>= fun (left, st) =>
